@@ -408,7 +408,7 @@ def run_history(c, ctx):
             verify_all(ne, "from_vector")
 
     for role, obj, dg in provided:
-        dd = digest.digest_diff(dg, digest.digest(obj))
+        dd = digest.parameter_mutation(dg, digest.digest(obj))
         ctx.expect(dd is None, "caller_point_set_mutated." + role, lambda: "%s %s: %r" % (cls, opts, dd))
     ctx.expect(np.array_equal(q, q_before), "caller_point_set_mutated.probes", "")
 
@@ -520,7 +520,7 @@ def c_gpa(c, ctx):
         if maxdiff(alt.h_matrix, fresh.h_matrix) > 1e-3:
             vis = True
     for i, s in enumerate(sources):
-        dd = digest.digest_diff(dg[i], digest.digest(s))
+        dd = digest.parameter_mutation(dg[i], digest.digest(s))
         ctx.expect(dd is None, "caller_point_set_mutated.gpa_source", lambda dd=dd: repr(dd))
         ctx.expect(g.sources[i] is s, "gpa.sources_replaced", "")
     if vis:
